@@ -332,3 +332,12 @@ package history
 //@   ensures [at-most-one-appended] h.lines == old(h.lines) || (len(h.lines) == old(len(h.lines)) + 1 && h.lines[:old(len(h.lines))] == old(h.lines) && h.lines[old(len(h.lines))].Block == strtrim(s) && h.lines[old(len(h.lines))].Index == old(len(h.lines)))
 //@   ensures [blank-never] len(strtrim(s)) == 0 ==> h.lines == old(h.lines)
 //@   ensures [new-line-always] len(strtrim(s)) > 0 && (old(len(h.lines)) == 0 || old(h.lines)[old(len(h.lines)) - 1].Block != strtrim(s)) ==> len(h.lines) == old(len(h.lines)) + 1
+
+// C11 / C08: every Readline call starts with a clean accept state, so that LineAccepted can only report a
+// line accepted by a command of *this* call (which is what runs Display.AcceptLine before Readline returns).
+//@ func Init
+//@   props C11 C08 C01
+//@   assume_nopanic the hold / infer branches call Walk, InferNext and Line.Set under hypotheses that are the main loop's (A-LOOP); only the accept state matters here
+//@   allow_alias the held line becomes the buffer (Line.Set keeps the slice); the deferred reset drops acceptLine before Init returns, so no second reference survives
+//@   requires hist != nil && hist.line != nil && hist.cursor != nil
+//@   ensures [accept-state-cleared] !hist.accepted && hist.acceptErr == nil && len(hist.acceptLine) == 0 && hist.cpos == -1
